@@ -58,7 +58,48 @@ REVIEWED = {
 }
 
 
+def ob_rejection_budget(run, oid):
+    """the reviewed reason of the two 'rejected all samples' panics is the size of the rejection budget: decide it"""
+    prog = run.program("lib")
+    o = run.ob(oid, "rejection sampling gives up only after MAX_TRIES_PER_SAMPLE >= 100 000 draws, and both rejection loops run over exactly that budget",
+               "'always returns exactly k': a committee as large as a near-uniform validator set accepts the last seats with probability ~1/n per draw; with the "
+               "reviewed budget the panic is out of reach (~1e-8 per committee of 2000), with a tenth of it it is not (~20%)", floor=3)
+    v = prog.const_int(SS + "MAX_TRIES_PER_SAMPLE")
+    if v is None:
+        o.missing("const MAX_TRIES_PER_SAMPLE")
+        return o
+    o.check(v >= 100_000, "MAX_TRIES_PER_SAMPLE|at-least-reviewed", "MAX_TRIES_PER_SAMPLE >= 100 000 (the reviewed budget; more only lowers the failure probability)", "", {"value": v})
+    for fn in (SS + "DecayingAcceptanceSampler::sample_one", "<" + SS + "TurbineSampler as " + SS + "SamplingStrategy>::sample"):
+        b = prog.body(fn)
+        if b is None:
+            o.missing(fn)
+            continue
+        rng = [(bb, rv, sp) for (bb, rv, sp, dst) in b.aggregates() if rv.get("ak") == "adt" and rv["adt"].endswith("ops::range::Range")]
+        ok = False
+        for (bb, rv, sp) in rng:
+            ts = [b.operand_term(x) for x in rv["ops"]]
+            lo, hi = K.const_eval(ts[0]), ts[1]
+            if lo == 0 and (K.mentions(hi, lambda y: isinstance(y, tuple) and y and ((y[0] == "cref" and y[1].endswith("MAX_TRIES_PER_SAMPLE")) or (y[0] == "const" and len(y) > 3 and str(y[3]).endswith("MAX_TRIES_PER_SAMPLE")))) or K.const_eval(hi) == v):
+                ok = True
+        is_budget = lambda y: isinstance(y, tuple) and y and ((y[0] == "cref" and y[1].endswith("MAX_TRIES_PER_SAMPLE")) or (y[0] == "const" and isinstance(y[2], int) and y[2] == v))
+        if not ok:
+            # `while tries < MAX_TRIES_PER_SAMPLE { .. tries += 1 }` / `loop { if tries == MAX .. }`: a counter compared with the budget decides the loop
+            for bl in b.blocks:
+                t = bl["term"]
+                if t["k"] != "switch":
+                    continue
+                d = b.operand_term(t["d"])
+                for y in mir.walk(d):
+                    if isinstance(y, tuple) and y and y[0] == "bin" and y[1] in ("Lt", "Le", "Gt", "Ge", "Eq", "Ne") and (is_budget(K.peel(y[2])) != is_budget(K.peel(y[3]))):
+                        cnt = K.peel(y[3] if is_budget(K.peel(y[2])) else y[2])
+                        if isinstance(cnt, tuple) and cnt and cnt[0] == "local":
+                            ok = True
+        o.check(ok, "%s|loop-over-budget" % K.fshort(fn), "the rejection loop runs over the budget (`for _ in 0..MAX_TRIES_PER_SAMPLE` or a counter compared with it)", b.span, {"ranges": len(rng)})
+    return o
+
+
 def check(run):
+    ob_rejection_budget(run, "O17.12")
     from . import detectors as _DN
     _DN.ob_new_fields(run, "O17.10", ['disseminator::rotor::sampling_strategy', 'disseminator::turbine::weighted_shuffle'], 'a sampler may depend on the validator set and the supplied RNG only: a new field read while sampling is further state')
     from . import detectors as _DC
@@ -103,7 +144,15 @@ def check(run):
         rs = b.calls_to(SS + "DecayingAcceptanceSampler::reset")
         draw = [c for c in b.calls() if c.name.endswith("Iterator::collect") or c.name.endswith("::collect")]
         o.check(bool(rs) and b.always_followed_by(0, [c.bb for c in rs]), "sample_quorum|resets", "every path reaches reset()", b.span)
-        o.check(bool(rs) and bool(draw) and all(b.dominates(d.bb, rs[0].bb) for d in draw), "sample_quorum|after-draws", "reset() comes after the draws", b.span)
+        # draws: sample_one called in a loop of this body, or inside the closure of a map(..).collect() chain
+        d_body = b.calls_to(SS + "DecayingAcceptanceSampler::sample_one")
+        d_cl = [fb for fb in prog.family(b.defpath) if fb.is_closure and fb.calls_to(SS + "DecayingAcceptanceSampler::sample_one")]
+        okd = bool(rs) and (bool(d_body) or (bool(d_cl) and bool(draw)))
+        if okd and d_body:
+            okd = all(not b.can_reach(r.bb, d.bb) or r.bb == d.bb for r in rs for d in d_body) and all(b.can_reach(d.bb, rs[0].bb) for d in d_body)
+        if okd and d_cl and not d_body:
+            okd = all(b.dominates(d.bb, rs[0].bb) for d in draw)
+        o.check(okd, "sample_quorum|after-draws", "reset() comes after the draws (no draw is reachable once the counters were reset)", b.span)
     rb = prog.body(SS + "DecayingAcceptanceSampler::reset")
     if rb is not None:
         w = K.mutborrows_of_field(rb, "DecayingAcceptanceSampler", "sample_count") or [c for c in rb.calls() if c.name.endswith("Mutex::lock") or c.name.endswith("::lock")]
